@@ -74,7 +74,11 @@ for case in payload["cases"]:
             out.append(res)
             continue
         res["rows_after"] = int(new_frame.shape[0])
-        res["new"] = [[str(n), [str(x) for x in new_frame[n].tolist()]] for n in after[len(before):]]
+        # positional access: an appended column may carry the name of an original one
+        res["new"] = [[str(after[j]), [str(x) for x in new_frame.iloc[:, j].tolist()]] for j in range(len(before), len(after))]
+        res["originals_intact"] = all(
+            [str(x) for x in new_frame.iloc[:, j].tolist()] == [str(x) for x in frame.iloc[:, j].tolist()]
+            for j in range(len(before)))
         res["constructed"] = sorted(str(x) for x in tr.constructed_feature_names)
         res["ok"] = True
     except Exception as e:  # recorded outcome, decided by the harness
